@@ -431,8 +431,7 @@ def rule_r5(ctx):
             ctx.r.violation(rid, key_of(f, None, "short-body-no-close"), "a short body does not close the connection", f.loc(t.ast))
 
 
-def rule_r6(ctx):
-    rid = "C03.R6"
+def rule_r6(ctx, rid="C03.R6"):
     ctx.r.rule(rid, "file wrapper: the declared length is reconciled with prepare()'s result before the head is generated; ReadOnlyFileBasedBuffer.get bounds every read by remain")
     p = ctx.p
     f = p.func("task.WSGITask.execute")
@@ -547,7 +546,16 @@ def rule_r8(ctx, rid="C03.R8"):
     teardown(ctx, rid=rid)
 
 
-RULES = [rule_r1, rule_r2, rule_r3, rule_r4, rule_r5, rule_r6, rule_r7, rule_r8, rule_error_route]
+def rule_buffers(ctx):
+    """Shared with C17: the output buffers deliver the application's bytes once, in order (representation invariant
+    of the file-based buffers incl. the migration between representations)."""
+    from . import c17
+    c17.rule_r1(ctx, rid="C03.R10")
+    c17.rule_r3(ctx, rid="C03.R10")
+    c17.rule_r4(ctx, rid="C03.R10")
+
+
+RULES = [rule_r1, rule_r2, rule_r3, rule_r4, rule_r5, rule_r6, rule_r7, rule_r8, rule_error_route, rule_buffers]
 
 from ..selftest import M, T, V  # noqa: E402
 
